@@ -14,15 +14,16 @@ PROP = {'technique': 'property-based testing (rapid): generated rule files and l
          'universe of names and addresses so rules overlap, mixed with motifs a rule-merging optimiser would exploit: runs of 2-6 '
          'adjacent same-action IP/CIDR rules with nested / overlapping / duplicated / single-address members (v4 and v6, /0 .. /32'
          '|/128, sorted or unsorted) followed by a wider network under another action, runs of adjacent same-action domain rules o'
-         'f one family, a port-limited all early in the list, a catch-all last (up to 18 lines); queries aimed at a rule (match / near miss at label, bit and port boundaries; for networks also a random inside address, first/last address, the address before/after) '
+         'f one family, a port-limited all early in the list, a catch-all last (up to 18 lines); one witness lookup per rule is appended to every sequence; 1 case in 40 has one line longer than 64 KiB (comment / rule padded with blanks / trailing comment); queries aimed at a rule (match / near miss at label, bit and port boundaries; for networks also a random inside address, first/last address, the address before/after) '
          'or from the universe, as fresh / one-component mutation / repeat (possibly respelled). Non-trivial (Match): a repeat after an '
          'eviction-forcing number of distinct lookups AND a query matched by >=2 rules with different results. Non-trivial (Engine): a '
          'cache hit AND such a query; (EngineEvict): a re-asked probe after >=1024 other distinct requests, >1024 distinct requests in '
          'the case AND such a query. Distinct = distinct (rule file, normalised query-key sequence).',
  'assumptions': ['no geoip:/geosite: rules (need databases)',
                  'no port 0 in rules (compiledRule.StartPort==0 doubles as "any port"; 0 is not a usable TCP/UDP port); query ports 1..65535',
-                 'no xn-- labels in patterns or host names (the matcher converts the host to Unicode, patterns are compared as written; '
-                 'the statement is about ASCII patterns)',
+                 'host names with a Punycode (xn--, any case) label are not judged by the reference evaluator (it does not IDNA-decode) but by the '
+                 'relation the statement fixes: any spelling (case, trailing dot) on the used rule set / engine == the lower-case, dot-less '
+                 'spelling of the same lookup on a fresh one; patterns are ASCII and may contain xn-- text',
                  'no IPv4-mapped IPv6 addresses in rules, hijack addresses or queries; the IPv4 field holds an IPv4 address (4- or 16-byte '
                  'form), the IPv6 field a non-mapped IPv6 address',
                  'host names are ASCII with at most one trailing dot; an IP-literal host name only occurs together with the same address '
